@@ -635,7 +635,12 @@ fn shake_1(expression: Expression) -> Expression {
             for expression in expressions {
                 let shaken = shake_1(expression);
                 match shaken {
-                    Expression::Nested(field, expression) => {
+                    // NOTE: A nested all() list asks for each member to be satisfied by some element
+                    // of an array; merged with other blocks it would be evaluated per element, so it
+                    // stays a block of its own.
+                    Expression::Nested(field, expression)
+                        if !matches!(*expression, Expression::Match(Match::All, _)) =>
+                    {
                         let expressions = nested.entry(field).or_insert(vec![]);
                         (*expressions).push(*expression);
                     }
@@ -692,7 +697,10 @@ fn shake_1(expression: Expression) -> Expression {
                     let shaken = shake_1(expression);
 
                     match shaken {
-                        Expression::Nested(field, expression) => {
+                        // NOTE: See the conjunction above, a nested all() list is not merged.
+                        Expression::Nested(field, expression)
+                            if !matches!(*expression, Expression::Match(Match::All, _)) =>
+                        {
                             let expressions = nested.entry(field).or_insert(vec![]);
                             (*expressions).push(*expression);
                         }
